@@ -6,7 +6,7 @@ from typing import Any, Dict, List, Optional
 
 from mon.runner import Violation
 
-SLACK = 1.0  # virtual seconds of promptness slack (poll period of the code is 0.3)
+SLACK = 2.0  # virtual seconds of promptness slack (the code polls every 0.3 s; a refactor to 1 s must not alarm)
 
 
 def by_delivery(trace: List[Dict[str, Any]]) -> Dict[Any, List[Dict[str, Any]]]:
